@@ -356,6 +356,31 @@ def r7_readonly_first(idx, r):
                       msg="on a read-only collection this in-place mutation happens before (or without) any refusal: the value changes although every assignment should be refused")
 
 
+def r8_setter_siblings(idx, r):
+    """Parameter.setter builds one of several sibling closures. Every closure that stores a value (directly or through the
+    user's setter) must mark BOTH the definition and the collection as assigned: retainState's keep-set re-applies a kept
+    parameter only when its collection says something was assigned since the backup."""
+    f = idx.method("armi.reactor.parameters.parameterDefinitions.Parameter", "setter")
+    if f is None:
+        raise AnchorMissing("Parameter.setter")
+    closures = [n for n in ast.walk(f.node) if isinstance(n, ast.FunctionDef) and n is not f.node]
+    storing = []
+    for c in closures:
+        p_self = c.args.args[0].arg if c.args.args else None
+        stores = any(isinstance(x, ast.Call) and (dotted(x.func) == "setattr" or dotted(x.func) == f.params()[1]) for x in ast.walk(c))
+        if not stores:
+            continue
+        storing.append(c)
+        marks_coll = any(isinstance(x, ast.Assign) and norm(x.targets[0]) == f"{p_self}.assigned" and "SINCE_ANYTHING" in norm(x.value) for x in ast.walk(c))
+        marks_def = any(isinstance(x, ast.Assign) and norm(x.targets[0]) == "self.assigned" and "SINCE_ANYTHING" in norm(x.value) for x in ast.walk(c))
+        kind = "user-setter" if any(isinstance(x, ast.Call) and dotted(x.func) == f.params()[1] for x in ast.walk(c)) else "default-setter"
+        r.require(marks_coll and marks_def, f"closure:{kind}:marks-assigned", f, node=c,
+                  msg=f"the {kind} closure stores the value but does not set {'the collection' if not marks_coll else 'the definition'} `.assigned = SINCE_ANYTHING` like its sibling: "
+                      "a kept parameter with such a setter (mgFlux, xsType, ...) assigned inside a retainState scope is reverted on exit")
+    if len(storing) < 2:
+        raise AnalysisError(f"Parameter.setter: {len(storing)} storing closures found, expected the default and the user-setter one")
+
+
 def run(idx, chk):
     chk.explanation = (
         "C16: StateRetainer's enter/exit symmetry and traversal; every backUp/restoreBackup pair in the tree pushing and popping a stack with "
@@ -374,3 +399,5 @@ def run(idx, chk):
                  necessary="a backup that aliases live state cannot restore it")
     chk.run_rule("R16.7", "in-place mutation of a parameter container is preceded by a guarded store on the same collection (read-only refuses first)", lambda r: r7_readonly_first(idx, r), floor=5,
                  necessary="'after a reactor is made read-only ... no value changes'")
+    chk.run_rule("R16.8", "every value-storing closure of Parameter.setter marks definition and collection as assigned", lambda r: r8_setter_siblings(idx, r), floor=2,
+                 necessary="parameters named to be kept retain their new values (the keep-set is applied only when the collection reports an assignment)")
